@@ -613,11 +613,13 @@ impl<C: Case> AnyStream for Stream<C> {
                                                         });
                                                     }
                                                     Ok(()) => {
-                                                        println!(
-                                                            "INCONCLUSIVE: stream {} reported a failure ({}) that reproduces neither on its own nor after the {} cases that preceded it",
+                                                        // not a verdict of its own; kept until the end so that a
+                                                        // reproducible failure of another shard or stream is still
+                                                        // reported as the violation it is
+                                                        UNREPRODUCED.lock().unwrap().push(format!(
+                                                            "stream {} reported a failure ({}) that reproduces neither on its own nor after the {} cases that preceded it",
                                                             name, reason, hist.len()
-                                                        );
-                                                        std::process::exit(2);
+                                                        ));
                                                     }
                                                 }
                                             }
@@ -852,6 +854,10 @@ pub fn load_stored(path: &Path) -> Result<StoredCase, String> {
 }
 
 /// Run one property at one tier; returns the process exit code.
+/// failures that could not be reproduced (alone or after their predecessors): exit 2 at the end
+/// unless a reproducible violation was found as well
+static UNREPRODUCED: std::sync::Mutex<Vec<String>> = std::sync::Mutex::new(Vec::new());
+
 pub fn run_property(p: &Property, tier: Tier, seed: u64) -> i32 {
     let t0 = Instant::now();
     install_panic_hook();
@@ -1043,6 +1049,10 @@ pub fn run_property(p: &Property, tier: Tier, seed: u64) -> i32 {
             println!("VIOLATION property={} replay={}", p.id, path.display());
         }
         return 1;
+    }
+    if let Some(u) = UNREPRODUCED.lock().unwrap().first() {
+        println!("INCONCLUSIVE: {}", u);
+        return 2;
     }
     // generator health: never a violation.  A stream most of whose cases fall outside the
     // check's own domain tests little, however many cases it counts
